@@ -164,9 +164,32 @@ Theorem C11_cns_no_overflow : forall (n modulus : Z) (vs : list Z) (coeff : Z),
 Proof. exact cns_no_overflow. Qed.
 Print Assumptions C11_cns_no_overflow.
 
-(* B (not proved): the constructor's own test (num_extra_bits >= coefficient bits, computed from the single table entry
-   C(n, min(n/2, k))) implies the hypothesis of C11_cns_no_overflow for every |vs| <= k: needs the unimodality of the binomial
-   coefficients; and the wrap-around test of the constructor detects every overflow of the 128-bit table.  Both are exercised by
-   the differential run (table overflow boundary n = 131 / 132). *)
-Definition C11_cns_constructor_guard_full : Prop :=
-  forall (n k j : nat), (j <= k)%nat -> binom n j <= binom n (Nat.min (n / 2) k).
+(* the entry the Cns constructor inspects, C(n, min(n/2, k)), is the largest entry of the columns 0..k of row n *)
+Theorem C11_cns_largest_table_entry : forall (n k j : nat), (j <= k)%nat -> binom n j <= binom n (Nat.min (n / 2) k).
+Proof. exact binom_max_entry. Qed.
+Print Assumptions C11_cns_largest_table_entry.
+
+(* hence the guard "num_extra_bits() >= bits for the coefficient" (Rips_filtration constructor) protects every simplex with at most
+   k vertices *)
+Theorem C11_cns_dispatch_no_overflow : forall (n k modulus : Z) (vs : list Z) (coeff : Z),
+  2 <= modulus -> 0 <= n -> 0 <= k -> vs <> [] -> increasing 0 vs -> (forall v, In v vs -> v < n) ->
+  1 <= coeff <= modulus - 1 -> Z.of_nat (length vs) <= k ->
+  let cb := log2up (modulus - 1) in
+  cb <= extra_bits C128 n k ->
+  let idx := simplex_index Cns vs in
+  let content := pack cb idx coeff in
+  0 <= content < 2 ^ 128 /\ unpack_index cb content = idx /\ unpack_coeff cb content = coeff /\
+  decode Cns (unpack_index cb content) (length vs) n = vs.
+Proof. exact cns_dispatch_no_overflow. Qed.
+Print Assumptions C11_cns_dispatch_no_overflow.
+
+Example C11_cns_dispatch_nonvacuous : log2up (7 - 1) <= extra_bits C128 40 27 /\ extra_bits C128 131 102 = 0 /\ extra_bits C128 132 102 < 0.
+Proof. vm_compute. repeat split; intro; discriminate. Qed.
+
+(* if that entry is below 2^128 then every entry of rows 0..n, columns 0..k is: no addition of the table construction wraps *)
+Theorem C11_cns_table_entries_bounded : forall (n k : nat) (W : Z), binom n (Nat.min (n / 2) k) < W ->
+  forall i j, (i <= n)%nat -> (j <= k)%nat -> 0 <= binom i j < W.
+Proof. exact binom_table_bounded. Qed.
+Print Assumptions C11_cns_table_entries_bounded.
+(* Not modelled: the wrap-around test of the constructor itself (B[mi][i] < B[mi][i-1] on unsigned __int128), i.e. that it throws
+   whenever C(n, min(n/2,k)) >= 2^128.  Compared at the boundary C(131,65) < 2^128 <= C(132,66) by the differential run. *)
